@@ -225,7 +225,7 @@ func TestC05(t *testing.T) {
 	if !requireHooks(t) {
 		return
 	}
-	ev.Check(t, "c05_structure", ev.N(24000, 500000), func(t *rapid.T) c05Case {
+	ev.Check(t, "c05_structure", ev.N(96000, 1000000), func(t *rapid.T) c05Case {
 		w := gen.WL(t, gen.WLOpts{List: gen.WordListOpts{Min: 1, Max: 12}, MaxLen: 12, AllowScript: true, UnknownCap: true})
 		if rapid.IntRange(0, 11).Draw(t, "long") == 0 {
 			w.Length = rapid.IntRange(13, 300).Draw(t, "long_length") // "all lengths >= 1"
